@@ -752,7 +752,7 @@ def market_cases(draw, max_ops: int = 60, market_frac: int = 2, illegal: bool = 
     alts = [limit] * 8 + [market] * market_frac + [cancel] * (6 if deep else 3) + [tick_op] * (1 if deep else 3) + [match] * match_weight
     alts += [st.tuples(st.just("D"), st.booleans(), st.sampled_from([0.3, 0.5, 0.8, 1.0]))]
     if jumps:
-        alts += [st.tuples(st.just("J"), st.sampled_from([2, 3, 6, 12]))]
+        alts += [st.tuples(st.just("J"), st.sampled_from([2, 3, 6, 12, 120, 205]))]
     if deep:
         alts += [st.tuples(st.just("CB"), st.booleans())] * 4
     if toggles:
